@@ -1,0 +1,15 @@
+//go:build !verif
+
+// Package verifhook provides named hook points for the runtime-verification
+// harness. It is only active when built with the "verif" build tag; without
+// the tag Point is an empty function.
+package verifhook
+
+// Enabled reports whether hook points are compiled in.
+const Enabled = false
+
+// Set does nothing without the verif build tag.
+func Set(f func(name string)) {}
+
+// Point does nothing without the verif build tag.
+func Point(name string) {}
